@@ -48,6 +48,19 @@ Theorem C15_nmmc_sums_invariant :
 Proof. exact nreach. Qed.
 Print Assumptions C15_nmmc_sums_invariant.
 
+(* runs_trace stays aligned with the kept sampled trajectories after ANY
+   history (deterministic trajectories, merges with mixed keep_runs_results
+   included): a result that keeps its runs lists exactly the traces of the
+   sampled trajectories added, in order - as many as num_trajectories -, one
+   that does not keep them lists none *)
+Theorem C15_nmmc_runs_trace_aligned :
+  forall n nt ops i x, Forall (nop_shaped n nt) ops -> nth_error (nrun [] ops) i = Some x ->
+    q_runs_trace x = (if q_keep x then map n_tr (q_grel x) else []) /\
+    q_ntrajs x = (if q_keep x then q_num x else 0%nat) /\
+    (q_keep x = true -> length (q_runs_trace x) = q_num x).
+Proof. exact nreached_runs_trace. Qed.
+Print Assumptions C15_nmmc_runs_trace_aligned.
+
 (* merge of NmmcResults is the p-mixture for every trace-weighted statistic *)
 Theorem C15_nmmc_merge_is_mixture :
   forall f n nt a b p, NI n nt a -> NI n nt b -> (0 < q_num a)%nat -> (0 < q_num b)%nat ->
@@ -84,3 +97,15 @@ Proof.
   split; [repeat constructor|].
   eexists. split; [vm_compute; reflexivity|]. split; [reflexivity|]. split; vm_compute; reflexivity.
 Qed.
+
+(* the former rule (before 8bf0b8f): _add_trace also appended the trace of a
+   deterministic trajectory, so runs_trace had one entry more than there were
+   kept trajectories; next to it the current rule on the same input *)
+Example C15_old_rule_runs_trace_deterministic :
+  let t (id : Z) x tr := mknt id [(x, 1)] [(tr, 1)] [(tr, 1)] in
+  let o := nadd (nadd (nnew true) (t 1 2 3) 1%Qc) (t 2 4 5) 1%Qc in
+  length (q_runs_trace (old_nadd_det o (t 0 1 7) (mkq 1 2))) = 3%nat /\
+  q_ntrajs (old_nadd_det o (t 0 1 7) (mkq 1 2)) = 2%nat /\
+  length (q_runs_trace (nadd_det o (t 0 1 7) (mkq 1 2))) = 2%nat /\
+  map vz (q_runs_trace (nadd_det o (t 0 1 7) (mkq 1 2))) = [[(3, 1)]; [(5, 1)]].
+Proof. repeat split; vm_compute; reflexivity. Qed.
